@@ -5,6 +5,9 @@ import CnbVerif.Props.C18
 #print axioms CnbVerif.C18.hex_roundtrip
 #print axioms CnbVerif.C18.checksum_accepted_iff_grammar
 #print axioms CnbVerif.C18.checksum_value
+#print axioms CnbVerif.C18.record_checksum_is_from_str
+#print axioms CnbVerif.C18.record_accepted_iff_checksum_grammar
+#print axioms CnbVerif.C18.inventory_accepts_only_grammar_checksums
 #print axioms CnbVerif.C18.spec_oracle_is_grammar
 #print axioms CnbVerif.C18.checksum_roundtrip
 #print axioms CnbVerif.C18.inventory_roundtrip_partial
